@@ -125,7 +125,7 @@ def run(ck):
                                 exp = q.pop(0)
                                 if (ty, data) != (exp[0], exp[1]):
                                     bad += 1
-                                    key = "mirror.position-truncated" if ty == 0x26 and exp[0] == 0x26 and data == exp[1][:3] else "mirror.payload"
+                                    key = "mirror.payload"
                                     ck.violation(key, {"property": "C19", "events": flowgen.ev_json(ev), "impl": il, "reason": "mirror carries type %02x data %s, the report asks for type %02x data %s" % (ty, hexs(data), exp[0], hexs(exp[1]))})
                 # without pressure the mirror must be on the wire right after its report
                 if e[0] == "up" and not stalled_any and not any(x[0] == "send" for x in ev):
